@@ -783,6 +783,10 @@ func (t *T) skip(msg string) {
 }
 
 func (t *T) fail(now bool, msg string) {
+	if msg == "" {
+		msg = "(no failure message)" // empty t.failed means "has not failed"
+	}
+
 	t.mu.Lock()
 	defer t.mu.Unlock()
 
